@@ -6,12 +6,25 @@ open Slock.Engine (has)
 
 /-- a chain of helper steps that edits record `rid` visibly, keeps every record's command / connection, and never sets `timeouted := false` -/
 theorem wfk_of_chain {seq0 : Nat} {k' k : Key} (rid : Nat) (p : PKeepX πA (· = rid) k' k) (pc : PKeep πC k' k)
-    (hl : k'.hasRec rid → (k'.getR rid).timeouted = false → (k.getR rid).timeouted = false) : WFK (· = rid) seq0 k' k := by
+    (hl : k'.hasRec rid → (k'.getR rid).timeouted = false → (k.getR rid).timeouted = false)
+    (hd : k'.hasRec rid → 0 < (k'.getR rid).depth → (k'.getR rid).hid = (k.getR rid).hid ∧ 0 < (k.getR rid).depth) : WFK (· = rid) seq0 k' k := by
   refine WFK.of_pkx p ?_
   intro y hy hyy
   subst hy
   have hv := pc.val y hyy
-  exact ⟨pc.sub y hyy, congrArg (fun t => t.1) hv, congrArg (fun t => t.2) hv, hl hyy⟩
+  exact ⟨pc.sub y hyy, congrArg (fun t => t.1) hv, congrArg (fun t => t.2) hv, hl hyy, fun h => Or.inl (hd hyy h)⟩
+
+/-- identity and depth of a record -/
+def πHD (r : Rec) : Nat × Nat := (r.hid, r.depth)
+theorem ins_πHD : Ins πHD := ⟨fun _ _ => rfl, fun _ _ => rfl, fun _ _ => rfl, fun _ _ => rfl⟩
+
+theorem hd_of_pk {k' k : Key} {rid : Nat} (ph : PKeep πHD k' k) :
+    k'.hasRec rid → 0 < (k'.getR rid).depth → (k'.getR rid).hid = (k.getR rid).hid ∧ 0 < (k.getR rid).depth := by
+  intro hh hd
+  have hv := ph.val rid hh
+  have e1 : (k'.getR rid).hid = (k.getR rid).hid := congrArg (fun t => t.1) hv
+  have e2 : (k'.getR rid).depth = (k.getR rid).depth := congrArg (fun t => t.2) hv
+  exact ⟨e1, by rw [← e2]; exact hd⟩
 
 theorem dropT_wfk {seq0 : Nat} (w : W) (rid : Nat) : WFK (· = rid) seq0 (w.dropT rid).k w.k := by
   refine wfk_of_chain rid ?_ (pk_dropT ins_πC w rid (fun _ _ => rfl)) ?_
@@ -19,6 +32,7 @@ theorem dropT_wfk {seq0 : Nat} (w : W) (rid : Nat) : WFK (· = rid) seq0 (w.drop
     exact (PKeepX.of_pk (pk_unrefCheck ins_πA _ rid)).trans (PKeepX.modRec (X := (· = rid)) w.k rid (fun r => { r with tSched := none }) (fun _ => rfl) rfl)
   · intro hh hl
     rw [← (pk_dropT ins_timeouted w rid (fun _ _ => rfl)).val rid hh]; exact hl
+  · exact hd_of_pk (pk_dropT ins_πHD w rid (fun _ _ => rfl))
 
 theorem dropE_wfk {seq0 : Nat} (w : W) (rid : Nat) : WFK (· = rid) seq0 (w.dropE rid).k w.k := by
   refine wfk_of_chain rid ?_ (pk_dropE ins_πC w rid (fun _ _ => rfl)) ?_
@@ -26,6 +40,7 @@ theorem dropE_wfk {seq0 : Nat} (w : W) (rid : Nat) : WFK (· = rid) seq0 (w.drop
     exact (PKeepX.of_pk (pk_unrefCheck ins_πA _ rid)).trans (PKeepX.modRec (X := (· = rid)) w.k rid (fun r => { r with eSched := none }) (fun _ => rfl) rfl)
   · intro hh hl
     rw [← (pk_dropE ins_timeouted w rid (fun _ _ => rfl)).val rid hh]; exact hl
+  · exact hd_of_pk (pk_dropE ins_πHD w rid (fun _ _ => rfl))
 
 theorem visitTimeout_wfk {seq0 : Nat} (w : W) (slot : Bool) (rid : Nat) (w' : W) (hv : w.visitTimeout slot rid = some w') :
     WFK (· = rid) seq0 w'.k w.k := by
@@ -38,7 +53,7 @@ theorem visitTimeout_wfk {seq0 : Nat} (w : W) (slot : Bool) (rid : Nat) (w' : W)
   · rename_i hto
     split at hv
     · injection hv with hv; rw [← hv]
-      refine wfk_of_chain rid ?_ ?_ ?_
+      refine wfk_of_chain rid ?_ ?_ ?_ (hd_of_pk ((pk_addTimeOut (π := πHD) _ rid (fun _ _ => rfl)).trans (pk_modR (π := πHD) w rid _ (fun _ => rfl) (fun _ => rfl))))
       · exact (PKeepX.modRec (X := (· = rid)) (w.modR rid (fun r => { r with tChecked := r.tChecked + 1 })).k rid
           (Rec.armT (Engine.wheelAdd (w.modR rid (fun r => { r with tChecked := r.tChecked + 1 })).db.tCheck
             (w.modR rid (fun r => { r with tChecked := r.tChecked + 1 })).db.seq
@@ -52,14 +67,14 @@ theorem visitTimeout_wfk {seq0 : Nat} (w : W) (slot : Bool) (rid : Nat) (w' : W)
 
 theorem collectT_wfk {seq0 : Nat} (w : W) (rid : Nat) : WFK (· = rid) seq0 (w.collectT rid).k w.k := by
   refine wfk_of_chain rid (PKeepX.modRec (X := (· = rid)) w.k rid unlongT (fun _ => rfl) rfl)
-    (pk_modR (π := πC) w rid unlongT (fun _ => rfl) (fun _ => rfl)) ?_
+    (pk_modR (π := πC) w rid unlongT (fun _ => rfl) (fun _ => rfl)) ?_ (hd_of_pk (pk_modR (π := πHD) w rid unlongT (fun _ => rfl) (fun _ => rfl)))
   intro hh hl
   have := (pk_modR (π := (·.timeouted)) w rid unlongT (fun _ => rfl) (fun _ => rfl)).val rid hh
   rw [← this]; exact hl
 
 theorem rearmE_wfk {seq0 : Nat} (w : W) (rid : Nat) (f : Rec → Rec) (hf : ∀ r, (f r).rid = r.rid) (hc : ∀ r, πC (f r) = πC r)
-    (ht : ∀ r, (f r).timeouted = r.timeouted) : WFK (· = rid) seq0 ((w.modR rid f).addExpried rid).k w.k := by
-  refine wfk_of_chain rid ?_ ?_ ?_
+    (ht : ∀ r, (f r).timeouted = r.timeouted) (hH : ∀ r, πHD (f r) = πHD r) : WFK (· = rid) seq0 ((w.modR rid f).addExpried rid).k w.k := by
+  refine wfk_of_chain rid ?_ ?_ ?_ (hd_of_pk ((pk_addExpried ins_πHD _ rid (fun _ _ => rfl)).trans (pk_modR (π := πHD) w rid f hf hH)))
   · exact (((SX.refl (X := (· = rid)) w).modR_in rid f hf rfl).addExpried rid rfl).p
   · exact (pk_addExpried ins_πC _ rid (fun _ _ => rfl)).trans (pk_modR (π := πC) w rid f hf hc)
   · intro hh hl
@@ -76,7 +91,7 @@ theorem visitExpire_wfk {seq0 : Nat} (w : W) (slot : Bool) (rid : Nat) (w' : W) 
   · injection hv with hv; rw [← hv]; exact dropE_wfk w rid
   · split at hv
     · injection hv with hv; rw [← hv]
-      exact rearmE_wfk w rid (fun r => { r with eChecked := r.eChecked + 1 }) (fun _ => rfl) (fun _ => rfl) (fun _ => rfl)
+      exact rearmE_wfk w rid (fun r => { r with eChecked := r.eChecked + 1 }) (fun _ => rfl) (fun _ => rfl) (fun _ => rfl) (fun _ => rfl)
     · exact absurd hv (by simp)
 
 /-- the wake pass that ends a firing step -/
@@ -91,7 +106,7 @@ theorem fireT_live_wfk {w : W} (h : WSt w) (rid : Nat) (hT : w.k.hasT rid = true
   have sc0 : Scal (Engine2.abs w.db) w.db := ⟨rfl, rfl, rfl, rfl, rfl, rfl⟩
   have rel := fireT_rel h (Engine2.abs w.db) sc0 _ rfl rid hT hl
   have p1 : WFK (· = rid) w.db.seq ((w.modR rid tombR).modK (·.settleWait)).k w.k := by
-    refine wfk_of_chain rid ?_ ?_ ?_
+    refine wfk_of_chain rid ?_ ?_ ?_ (hd_of_pk ((PKeep.settleWait ins_πHD _).trans (PKeep.modRec w.k rid tombR (fun _ => rfl) (fun _ => rfl))))
     · exact (PKeepX.of_pk (PKeep.settleWait ins_πA _)).trans (PKeepX.modRec (X := (· = rid)) w.k rid tombR (fun _ => rfl) rfl)
     · exact (PKeep.settleWait ins_πC _).trans (PKeep.modRec w.k rid tombR (fun _ => rfl) (fun _ => rfl))
     · intro _ _; exact hl
@@ -107,7 +122,10 @@ theorem fireT_live_wfk {w : W} (h : WSt w) (rid : Nat) (hT : w.k.hasT rid = true
   exact wfk_finish rel gw2 p2 hseq
 
 theorem preE_wfk (w : W) (rid : Nat) : WFK (· = rid) w.db.seq ((preE w rid).modK (·.removeLock rid)).k w.k := by
-  refine wfk_of_chain rid ?_ ?_ ?_
+  refine wfk_of_chain rid ?_ ?_ ?_ (fun hh hd => by
+    have := removeLock_depth (preE w rid).k rid hh
+    have hd' : 0 < (((preE w rid).k.removeLock rid).getR rid).depth := hd
+    rw [this] at hd'; exact absurd hd' (by simp))
   · refine (removeLock_others _ rid).trans ?_
     unfold preE
     exact (SX.when (((SX.refl (X := (· = rid)) w).modR_in rid exR (fun _ => rfl) rfl).modK_same
@@ -163,7 +181,7 @@ theorem wfd_commit (s : DB) (hq : DBQ s) (key rid : Nat) (w' : W) (f : Fr (s.ope
       rw [getKey_of_not_hasKey _ _ hh]
       have hno : ∀ y, ¬ (newKey n).hasRec y := by intro y ⟨r, hr, _⟩; simp [newKey] at hr
       exact ⟨fun y hy => absurd hy (hno y), fun y hy => absurd hy (hno y), fun y hy => absurd hy (hno y), fun y _ hy => absurd hy (hno y),
-        fun y _ hy => absurd hy (hno y)⟩
+        fun y _ hy => absurd hy (hno y), fun y hy => absurd hy (hno y)⟩
     | false =>
       have := commit_getKey w' hg
       rw [hkey] at this
